@@ -6,3 +6,8 @@ CLAIMED["C16"] = (
  "static analysis: switch-exhaustiveness over literal kinds, Format-vs-walkSubtree field coverage over all AST types, interprocedural SSA taint (raw statement text -> logrus sinks), dominance rule for the NotParsedStatement echo",
  "Decides, for every AST struct type and every logrus call site in the statement-handling packages, that (a) every data-carrying literal kind is converted by the normalizer, (b) every printed sub-node that can hold a literal is walked, (c) no value derived from raw statement text reaches a log call, (d) the redacted text is never the echo of an unparseable statement. These are necessary conditions for 'no literal in logs'; quoting/escaping behaviour of the printer and error-message provenance are not decided.",
  NOTE, "DESIGN.md §2 C16")
+
+CLAIMED["C13"] = (
+ "static analysis: AST-type reachability + Format field-coverage over all data-statement node types, switch exhaustiveness of SQLVal.Format, who-may-write rule over SSA stores into AST fields outside the parser",
+ "Decides for every AST struct type reachable from data statements that each field is read by its Format method (181 fields today), that ParenExpr/SQLVal printing keeps parentheses, every literal kind and casts, and that code outside the parser only overwrites the value/comparison fields the documented substitutions need. Necessary conditions for 'the re-serialised statement parses back to the same tree'; Parse(String(t))==t itself, quoting and escaping are not decided.",
+ NOTE, "DESIGN.md §2 C13")
